@@ -13,8 +13,9 @@ pub mod a0 {
       relation r2(i64);
       relation r3(i64, i64);
       relation r4(i64);
-      relation r5(i64, i64);
+      relation r5(i64);
       relation r6(i64);
+      relation r7(i64);
       r2(v3) <-- let v0 = 3, r1(v1, v2, v0), let v3 = ((*v2) + 0);
       r3(v1, v0) <-- r2(v0) if ((*v0) != 4), if let Some(v1) = Some((*v0)), r3(v0, v0) if ((*v0) != 2);
       r4(v0) <-- let v0 = 2, r3(v0, v0), r2(v0) if (v0 != 6) let v1 = (v0 + 1), for v2 in 1..3;
@@ -23,8 +24,9 @@ pub mod a0 {
       r3(v0, v0) <-- r4(v0);
       r3(1, v0) <-- r2(v0) if ((*v0) <= 1), r2(((*v0) + 0));
       r3(v0, 2) <-- let v0 = 3, r4(v0), r4(v1), r4(v1);
-      r5(v0, v21) <-- r2(v0), agg v21 = sum(v20) in r3((*v0), v20);
-      r6(v1) <-- r3(v0, v1), agg v21 = max(v20) in r4(v20);
+      r5(v31) <-- r2(v0), r1(v31, v32, v32), agg v21 = sum(v20) in r3(v20, (*v32));
+      r6(v34) <-- r1(v0, v1, v2), r1(v33, v34, v35), r0(v34, v2), agg () = not() in r2((*v2));
+      r7(v0) <-- r2(v0), agg () = not() in r0((*v0), _);
    }
    pub struct Inst { p: Prog, pool: Option<ascent::rayon::ThreadPool> }
    pub fn make(pool: Option<usize>) -> Box<dyn Driver> {
@@ -40,15 +42,17 @@ pub mod a0 {
          2 => { let v: Vec<(i64,)> = parse_rows(rows)?; if append { self.p.r2.extend(v) } else { self.p.r2 = v } },
          3 => { let v: Vec<(i64,i64,)> = parse_rows(rows)?; if append { self.p.r3.extend(v) } else { self.p.r3 = v } },
          4 => { let v: Vec<(i64,)> = parse_rows(rows)?; if append { self.p.r4.extend(v) } else { self.p.r4 = v } },
-         5 => { let v: Vec<(i64,i64,)> = parse_rows(rows)?; if append { self.p.r5.extend(v) } else { self.p.r5 = v } },
+         5 => { let v: Vec<(i64,)> = parse_rows(rows)?; if append { self.p.r5.extend(v) } else { self.p.r5 = v } },
          6 => { let v: Vec<(i64,)> = parse_rows(rows)?; if append { self.p.r6.extend(v) } else { self.p.r6 = v } },
+         7 => { let v: Vec<(i64,)> = parse_rows(rows)?; if append { self.p.r7.extend(v) } else { self.p.r7 = v } },
             _ => return None,
          }
          Some(())
       }
       fn run(&mut self) { match &self.pool { Some(pl) => { let p = &mut self.p; pl.install(|| p.run()) }, None => self.p.run() } }
+      fn run_here(&mut self) { self.p.run() }
       fn run_timeout(&mut self, k: usize) -> Option<bool> { let _ = k; None }
-      fn dump(&self) -> String { vec![dump_rel(0, self.p.r0.iter().map(Row::render).collect()), dump_rel(1, self.p.r1.iter().map(Row::render).collect()), dump_rel(2, self.p.r2.iter().map(Row::render).collect()), dump_rel(3, self.p.r3.iter().map(Row::render).collect()), dump_rel(4, self.p.r4.iter().map(Row::render).collect()), dump_rel(5, self.p.r5.iter().map(Row::render).collect()), dump_rel(6, self.p.r6.iter().map(Row::render).collect())].join(" | ") }
+      fn dump(&self) -> String { vec![dump_rel(0, self.p.r0.iter().map(Row::render).collect()), dump_rel(1, self.p.r1.iter().map(Row::render).collect()), dump_rel(2, self.p.r2.iter().map(Row::render).collect()), dump_rel(3, self.p.r3.iter().map(Row::render).collect()), dump_rel(4, self.p.r4.iter().map(Row::render).collect()), dump_rel(5, self.p.r5.iter().map(Row::render).collect()), dump_rel(6, self.p.r6.iter().map(Row::render).collect()), dump_rel(7, self.p.r7.iter().map(Row::render).collect())].join(" | ") }
       fn iters(&self) -> String { format!("iters {}", self.p.scc_iters.iter().map(|x| x.to_string()).collect::<Vec<_>>().join(" ")) }
    }
 }
@@ -75,8 +79,8 @@ pub mod a8 {
       r2(v3, ((*v1) + 1)) <-- if let Some(v0) = None::<i64>, r3(3, v1, v2), r2(v1, v0) if (v0 != 5), r2(((*v1) + 0), v2) if (v0 <= 5), for v3 in [0], if ((*v1) < 6);
       r2(((*v1) + 1), v0) <-- r2(3, v0), r3(((*v0) + 0), v1, v0), if ((*v1) < 6);
       r3(0, v0, v0) <-- r2(3, 2), if let Some(v0) = Some(0);
-      r4(v0, (v21 as i64)) <-- r3(v0, v1, v2), agg v21 = count() in r1(_, 1);
-      r5(v1, v21) <-- r1(v0, v1), agg v21 = sum(v20) in r0(v20);
+      r4(v0, (v21 as i64)) <-- r3(v0, v1, v2), agg v21 = count() in r1(1, _);
+      r5(v0, v21) <-- r0(v0), agg v21 = sum(v20) in r1(v20, _);
    }
    pub struct Inst { p: Prog, pool: Option<ascent::rayon::ThreadPool> }
    pub fn make(pool: Option<usize>) -> Box<dyn Driver> {
@@ -98,6 +102,7 @@ pub mod a8 {
          Some(())
       }
       fn run(&mut self) { match &self.pool { Some(pl) => { let p = &mut self.p; pl.install(|| p.run()) }, None => self.p.run() } }
+      fn run_here(&mut self) { self.p.run() }
       fn run_timeout(&mut self, k: usize) -> Option<bool> { let _ = k; None }
       fn dump(&self) -> String { vec![dump_rel(0, self.p.r0.iter().map(Row::render).collect()), dump_rel(1, self.p.r1.iter().map(Row::render).collect()), dump_rel(2, self.p.r2.iter().map(Row::render).collect()), dump_rel(3, self.p.r3.iter().map(Row::render).collect()), dump_rel(4, self.p.r4.iter().map(Row::render).collect()), dump_rel(5, self.p.r5.iter().map(Row::render).collect())].join(" | ") }
       fn iters(&self) -> String { format!("iters {}", self.p.scc_iters.iter().map(|x| x.to_string()).collect::<Vec<_>>().join(" ")) }
